@@ -72,6 +72,7 @@ def _run_own(ctx, chk):
         for fn in fns:
             chk.require(any(w[0] == fn for w in writers.get(meth, [])), "C07-a/writer-present", "%s in %s" % (meth, fn),
                         "expected map %s in %s not found (anchor missing)" % (meth, fn), "", nontrivial=False)
+    clear_only_when_idle(chk, crate)
     begin(chk, crate)
     for name in ("commit_transaction", "cancel_transaction"):
         close(chk, crate, name)
@@ -210,6 +211,46 @@ def begin(chk, crate):
                 "the token is recorded before the reservation exchange", "", f.sp(ibb), nontrivial=False)
 
 
+def clear_only_when_idle(chk, crate):
+    """begin / commit / cancel close at most their own token: a step that empties the whole map (cancel_pending's
+    `clear()`, reached directly or through end_of_day ...) is taken only on the `is_empty()` edge, where it closes
+    nothing."""
+    from client import emptiness_switches
+    clears = set()
+    calls = {}
+    for b in crate.bodies.values():
+        fn = short_fn(b)
+        for bb, t in b.calls():
+            n = callee(t)
+            if n.startswith(FEIG):
+                calls.setdefault(fn, set()).add(n[len(FEIG):])
+            if n.startswith("std::collections::hash::map::HashMap") and n.rsplit("::", 1)[-1] in ("clear", "drain", "retain"):
+                a0 = Ex(b).operand(t["args"][0])
+                if any(x[0] == "path" and "transactions" in x[2] for x in walk(a0)):
+                    clears.add(fn)
+    changed = True
+    while changed:
+        changed = False
+        for fn, cs in calls.items():
+            if fn not in clears and cs & clears:
+                clears.add(fn)
+                changed = True
+    chk.require("cancel_pending" in clears, "C07-a/clear-anchor", "cancel_pending", "the whole-map clear was not found (anchor)", "",
+                nontrivial=False)
+    for name in ("begin_transaction", "commit_transaction", "cancel_transaction"):
+        f = Fn(crate, name)
+        sites = f.calls(lambda n, t: n.startswith(FEIG) and n[len(FEIG):] in clears)
+        tests = emptiness_switches(f, lambda x: mentions_path(x, "self", ("transactions",)),
+                                   len_suffixes=("HashMap::<K, V, S, A>::len",), empty_suffixes=("HashMap::<K, V, S, A>::is_empty",))
+        for bb, t in sites:
+            ok = any(f.edge_dominates((tbb, true_t), bb) for tbb, e, true_t, false_t in tests)
+            chk.require(ok, "C07-a/clear-only-when-idle", "%s -> %s" % (name, callee(t)[len(FEIG):]),
+                        "%s empties the whole token map and is reachable while other tokens are open (not under the is_empty() "
+                        "edge): their pre-authorisations stay open on the terminal" % callee(t)[len(FEIG):], "only when idle", f.sp(bb))
+        if name != "begin_transaction":
+            chk.require(len(sites) >= 1, "C07-a/clear-anchor", name, "expected the idle clean-up call (anchor)", "", nontrivial=False)
+
+
 def expand_var(f, e, depth=0):
     """Resolve ('var',..) leaves (possibly under projections) into the expressions of their
     non-trivial definitions (skipping `None` initialisers)."""
@@ -332,8 +373,19 @@ def close(chk, crate, name):
                     "%s -> %s" % (name, callee(t).rsplit("::", 1)[-1]),
                     "terminal traffic is reachable for an unknown token", "guarded", f.sp(tb))
     # (d) what is acted on
+    def acted_on(act_bb, what):
+        # once the token is closed (removed from the map) the call cannot end without having asked the terminal to close
+        # the pre-authorisation: no return is reachable from the known-token edge around the reversal
+        rets = [i for i in f.reach if f.b.blocks[i]["term"]["t"] == "return"]
+        around = f.reach_from(starget, cut_blocks=[act_bb])
+        chk.require(not [r for r in rets if r in around], "C07-d/closed-token-acted-on", name,
+                    "the call can return after closing the token without %s (e.g. an error return between the removal and the "
+                    "exchange): the pre-authorisation stays open on the terminal with no token for it" % what,
+                    "every path from the removal passes the reversal", f.sp(act_bb))
     if name == "commit_transaction":
         st = [(bb, t) for bb, t in f.stream_calls() if f.seq_of(t) == "zvt::sequences::PartialReversal"]
+        if len(st) == 1 and starget is not None:
+            acted_on(st[0][0], "the PartialReversal exchange")
         if chk.require(len(st) == 1, "C07-d/request", name, "expected one PartialReversal exchange, found %d" % len(st), "", f.sp()):
             req = f.ex.operand(st[0][1]["args"][0])
             rn = field_of_agg(req, "zvt::packets::PartialReversal::PartialReversal", "receipt_no")
@@ -342,6 +394,8 @@ def close(chk, crate, name):
                         "receipt_no = removed value", f.sp(st[0][0]))
     else:
         cs = f.calls(lambda n, t: n == FEIG + "cancel_transaction_by_receipt_no")
+        if len(cs) == 1 and starget is not None:
+            acted_on(cs[0][0], "the reversal")
         if chk.require(len(cs) == 1, "C07-d/request", name, "expected one reversal call, found %d" % len(cs), "", f.sp()):
             a = f.ex.operand(cs[0][1]["args"][1])
             chk.require(on_removed(a) and not consts_in(a), "C07-d/receipt", name,
